@@ -24,6 +24,13 @@ MC_AsksMiss == { << "main", "t" >>, << "main", "q" >>, << "step", "t" >>, << "in
 MC_AsksMissAll == { << "main", "t" >>, << "main", "x" >>, << "main", "q" >>,
                     << "step", "t" >>, << "step", "x" >>, << "step", "q" >>,
                     << "initial", "t" >>, << "initial", "q" >> }
+(* boundary of the time-zero suppression: stored series of 3, 2 and 1 points (the step group after a   *)
+(* single traced sweep; any series right after the initial conditions), cutoff 0 as argument and as    *)
+(* Model.TimeSeriesCutoff: the truncated result has exactly one point, which is the k=0 point -> []     *)
+MC_EdgeStore == [main |-> [t |-> << 0, 1, 2 >>, x |-> << 4, 5 >>], step |-> [x |-> << 8 >>], initial |-> << >>]
+MC_AsksEdge == { << "main", "t" >>, << "main", "x" >>, << "step", "x" >> }
+MC_CutsZero == { NoCut, 0 }
+
 MC_RMain == { "main" }
 MC_RMainStep == { "main", "step" }
 
